@@ -2,6 +2,7 @@ package protocol
 
 import (
 	"context"
+	"errors"
 	"fmt"
 
 	"github.com/hujm2023/go-sms-protocol/datacoding"
@@ -17,11 +18,18 @@ const (
 	longMsgHeader6ByteFrameNum   = byte(0x03)
 	default6FrameKey             = 107
 
+	// total and index of the concatenation header are single octets
+	maxLongSmsParts = 255
+
 	// Protocol header format of 7 for long SMS: 06 08 04 XX XX MM NN
 	longMsgHeader7ByteFrameKey   = byte(0x06)
 	longMsgHeader7ByteFrameTotal = byte(0x08)
 	longMsgHeader7ByteFrameNum   = byte(0x04)
 )
+
+// ErrTooManyParts is returned when a content would need more parts than the
+// one-octet counters of the concatenation header can number.
+var ErrTooManyParts = errors.New("content needs more than 255 parts")
 
 // ParseLongSmsContent parses the header of a concatenated SMS.
 // frameKey: Unique identifier for this batch of messages
@@ -83,6 +91,10 @@ func EncodeCMPPContentAndSplit(ctx context.Context, content string, msgFmt datac
 	// short message
 	if len(encodedData) <= maxLongLength {
 		return [][]byte{encodedData}, actualMsgFmt, nil
+	}
+
+	if ceil(len(encodedData), perMsgLength) > maxLongSmsParts {
+		return nil, 0, ErrTooManyParts
 	}
 
 	return splitWithUDHI(encodedData, perMsgLength, frameKey), actualMsgFmt, nil
@@ -152,6 +164,10 @@ func EncodeSMPPContentAndSplit(ctx context.Context, content string, msgFmt datac
 		return [][]byte{encodedData}, actualMsgFmt, nil
 	}
 
+	if ceil(len(encodedData), perMsgLength) > maxLongSmsParts {
+		return nil, 0, ErrTooManyParts
+	}
+
 	return splitWithUDHI(encodedData, perMsgLength, frameKey), actualMsgFmt, nil
 }
 
@@ -216,6 +232,9 @@ func encodeAndSplitGSM7Packed(content string, frameKey byte) ([][]byte, datacodi
 		begin = end
 	}
 	msgCount := len(ends)
+	if msgCount > maxLongSmsParts {
+		return nil, 0, ErrTooManyParts
+	}
 	res := make([][]byte, 0, msgCount)
 
 	begin := 0
